@@ -11,11 +11,22 @@ mkdir -p .build .scratch evidence replays
 
 build() { # build <out> <pkg> [extra go build args]
   local out=$1 pkg=$2; shift 2
-  local tmp=".build/.$(basename "$out").$$"
+  local tmp="$(dirname "$out")/.$(basename "$out").$$"
   if ! go build -tags verif "$@" -o "$tmp" "$pkg" 2> ".build/build.$$.log"; then
     echo "INFRASTRUCTURE ERROR: build of $pkg failed" >&2; cat ".build/build.$$.log" >&2; rm -f "$tmp" ".build/build.$$.log"; exit 2
   fi
   rm -f ".build/build.$$.log"; mv -f "$tmp" "$out"
+}
+
+overlay() { # sync-shim overlay for C08, generated from the current tree into $1
+  build .build/mkoverlay ./cmd/mkoverlay
+  .build/mkoverlay "$REPO" overlay/vsync/vsync.go.txt "$1" hap crypto 2>/dev/null || { echo "INFRASTRUCTURE ERROR: overlay generation failed" >&2; exit 2; }
+}
+
+buildsched() { # buildsched <scratchdir> : vsched (+ the -race variant) next to each other
+  overlay "$1/ov"
+  build "$1/vsched" ./cmd/vsched -overlay "$1/ov/overlay.json"
+  build "$1/vsched-race" ./cmd/vsched -race -overlay "$1/ov/overlay.json"
 }
 
 gen() { # regenerate the constructor catalog from the current tree
@@ -28,6 +39,7 @@ case "${1:-}" in
     [ -d cmd/gencatalog ] && gen
     build .build/vcheck ./cmd/vcheck
     build .build/crashchild ./cmd/crashchild
+    mkdir -p .scratch/setup.$$ && buildsched .scratch/setup.$$ && rm -rf .scratch/setup.$$
     [ -x ./setup_extra.sh ] && ./setup_extra.sh
     echo "setup ok"; exit 0;;
   replay)
@@ -40,7 +52,10 @@ esac
 
 ID=$1; TIER=${2:-${VERIF_TIER:-quick}}
 [ -d cmd/gencatalog ] && gen
-if [ -x "./checks/$ID.sh" ]; then exec "./checks/$ID.sh" "$TIER"; fi
+if [ "$ID" = C08 ]; then
+  SC=.scratch/c08.$$; mkdir -p $SC; buildsched $SC
+  $SC/vsched C08 "$TIER"; rc=$?; rm -rf $SC; exit $rc
+fi
 build .build/vcheck.$$ ./cmd/vcheck
 [ "$ID" = C19 ] && build .build/crashchild ./cmd/crashchild
 .build/vcheck.$$ "$ID" "$TIER"; rc=$?
